@@ -61,10 +61,10 @@ class EdgeContribution(Contract):
         elif res.kind == 'real':
             card = getattr(ctx, 'card_snap', None)
             if card is None:
-                return self.forbid(ctx, 'C17.edge_contribution.divides_by_the_number_of_snapshots', tags=T)
+                return self.shape(ctx, 'C17.edge_contribution.divides_by_the_number_of_snapshots', tags=T)
             ctx.oblige('C17.edge_contribution.value', z3.And(ever, res.z * z3.ToReal(card) == z3.ToReal(c.sumlen(n))), tags=T)
         else:
-            return self.forbid(ctx, 'C17.edge_contribution.returns_a_number', tags=T, note='kind %s' % res.kind)
+            return self.shape(ctx, 'C17.edge_contribution.returns_a_number', tags=T, note='kind %s' % res.kind)
         for comp, f in spec.state_unchanged(c.g, c.pre).items():
             ctx.oblige('C17.edge_contribution.modifies_nothing.%s' % comp, f, tags=T)
 
@@ -196,7 +196,7 @@ class NodeContribution(_SnapCount):
             return
         card = getattr(ctx, 'card_snap', None)
         if r.kind != 'real' or card is None:
-            return self.forbid(ctx, 'C17.node_contribution.divides_by_the_number_of_snapshots', tags=('C17',), note='result kind %s' % r.kind)
+            return self.shape(ctx, 'C17.node_contribution.divides_by_the_number_of_snapshots', tags=('C17',), note='result kind %s' % r.kind)
         ctx.oblige('C17.node_contribution.value', r.z * z3.ToReal(card) == z3.ToReal(c.cnt['Tu'](c.pre['SKey'])), tags=('C17',))
 
 
@@ -223,7 +223,7 @@ class PairDensity(_SnapCount):
         elif r.kind == 'real':
             ctx.oblige('C17.pair_density.value', z3.And(den != 0, r.z * z3.ToReal(den) == z3.ToReal(num)), tags=('C17',))
         else:
-            self.forbid(ctx, 'C17.pair_density.returns_a_number', tags=('C17',), note='result kind %s' % r.kind)
+            self.shape(ctx, 'C17.pair_density.returns_a_number', tags=('C17',), note='result kind %s' % r.kind)
 
 
 class Coverage(_SnapCount):
@@ -250,7 +250,7 @@ class Coverage(_SnapCount):
             return
         card = getattr(ctx, 'card_snap', None)
         if r.kind != 'real' or card is None:
-            return self.forbid(ctx, 'C17.coverage.divides_by_snapshots_times_nodes', tags=('C17',), note='result kind %s' % r.kind)
+            return self.shape(ctx, 'C17.coverage.divides_by_snapshots_times_nodes', tags=('C17',), note='result kind %s' % r.kind)
         ctx.oblige('C17.coverage.value', r.z * z3.ToReal(card * c.NA) == z3.ToReal(c.cnt['sumVt'](c.pre['SKey'])), tags=('C17',))
 
 
@@ -281,7 +281,7 @@ class NodePresence(_SnapCount):
         if r is None:
             return
         if r.kind != 'vset':
-            return self.forbid(ctx, 'C17.node_presence.returns_a_set_of_ids', tags=('C17',), note='result kind %s' % r.kind)
+            return self.shape(ctx, 'C17.node_presence.returns_a_set_of_ids', tags=('C17',), note='result kind %s' % r.kind)
         ctx.oblige('C17.node_presence.members', r.member_z(c.q) == z3.And(c.pre['SKey'][c.q], c.HN(c.u, c.q)), tags=('C17',))
 
 
